@@ -11,6 +11,7 @@ REGISTRY = {
     'C11': ['wait', 'event', 'base_core'],
     'C12': ['core', 'handles'],
     'C16': ['event', 'base_core'],
+    'C18': ['fiber_locks'],
     'C19': ['atomic'],
 }
 LEVEL = {'C04': 'other'}
@@ -134,6 +135,17 @@ CLAIMS = {
         'note': 'SC atomics; documented usage rules (Add only while non-zero, Reset at quiescence) are preconditions; the coroutine awaiters '
                 'of the event are in unit coro when registered; the variadic / iterator `range` lambdas are abstracted by a contract.',
         'design': 'DESIGN.md 6 C16, 5.B, 5.E',
+    },
+    'C18': {
+        'text': 'Holder-count contracts with interference only at the fiber suspension points (FiberQueue::Wait both forms, Suspend, InjectFault), where the '
+                'environment performs any sequence of complete lock operations of other fibers: Mutex lock/try_lock/unlock, TimedMutex, RecursiveMutex '
+                '(lock, try_lock, unlock, LockHelper), RecursiveTimedMutex, SharedMutex (lock, try_lock, lock_shared, try_lock_shared, unlock, unlock_shared, '
+                'both helpers), SharedTimedMutex: on return the fiber is the only holder in the requested mode, try / timed success really holds the lock, '
+                'failure only because it was incompatible or the deadline passed, unlock frees and notifies; FiberQueue Wait / timed Wait / NotifyOne, '
+                'ConditionVariable::WaitImpl, Thread::join (returns only after Completed), thread-local proxy keyed by the current fiber.',
+        'note': 'Cooperative scheduling (no preemption between suspension points) is the model; context switching, the scheduler loop and std containers are '
+                'trusted; counters do not wrap. Replay: the real lock types in a FIBER build of the tree under check, 12 seeds of the stock scheduler.',
+        'design': 'DESIGN.md 6 C18, 5.D, A.8',
     },
     'C19': {
         'text': 'Every member function body of the FIBER atomic re-implementation and of the fault-injecting wrapper (both cv overloads) is '
